@@ -273,15 +273,15 @@ class Gen:
             return all(self.type_ser(f["t"]) for f in self.cls(t[1])["fields"])
         return True
 
-    def in_default(self, t, p=0.5):
-        d = self._in_default(t, p)
+    def in_default(self, t, p=0.5, nonopt=False):
+        d = self._in_default(t, p, nonopt)
         if d is not None and d["kind"] not in ("none", "undef"):
             tt = t[1] if t[0] == "opt" else t
             if not self.type_ser(tt):
                 d = {**d, "kind": "unserializable"}
         return d
 
-    def _in_default(self, t, p=0.5):
+    def _in_default(self, t, p=0.5, nonopt=False):
         r = self.rng
         if r.random() > p:
             return None
@@ -290,6 +290,9 @@ class Gen:
                 return {"kind": "none", "src": "None"}
             t = t[1]
         c = core(t)
+        if nonopt and t[0] == "prim" and r.random() < 0.15:
+            # `x: int = None`: not Optional in the type hints, nullable in the schema because of the default
+            return {"kind": "none", "src": "None", "nonopt": True}
         if t[0] == "list":
             if r.random() < 0.2:
                 return {"kind": "unhashable", "src": "[]", "factory": "list"}
@@ -430,7 +433,7 @@ class Gen:
                 d = {"kind": "undef", "src": "Undefined"}
             else:
                 t = self.in_type()
-                d = self.in_default(t)
+                d = self.in_default(t, nonopt=True)
             out.append({"name": self.fname(), "t": t, "alias": self.maybe_alias(0.25), "default": d,
                         "meta_form": r.choice(["or", "sep"])})
         out.sort(key=lambda p: p["default"] is not None)
